@@ -560,7 +560,9 @@ def ignore_wiring_obligations(rep, tier, unit='wiring:ignore'):
             inside = set()
             for b in branches:
                 nlit += 1
-                ys = [y for s_ in b.body for y in ast.walk(s_) if isinstance(y, ast.Yield) and isinstance(y.value, ast.Tuple)
+                # the success branch is the one that sets the status to True, whichever way round the test is written
+                succ = next((br for br in (b.body, b.orelse) if any(isinstance(s_, ast.Assign) and ast.unparse(s_) == '_status = True' for s_ in br)), b.body)
+                ys = [y for s_ in succ for y in ast.walk(s_) if isinstance(y, ast.Yield) and isinstance(y.value, ast.Tuple)
                       and ast.unparse(y.value.elts[1]) == ign]
                 if len(ys) != 1:
                     bad.append((name, ast.unparse(b.test)[:50]))
